@@ -121,7 +121,7 @@ def coq_layout_case(line, max_payloads=40):
 def vm_cross_check(ctx, drv, cases_path, n_layouts=240, n_hist=150):
     """DESIGN 3.3: sampled layouts (observed Filters()/Decode()) and sampled operation histories (state
     observed after every operation) evaluated inside Coq with vm_compute."""
-    lines = [l.rstrip("\n") for l in open(cases_path)]
+    lines = [l.rstrip("\n") for l in open(cases_path) if not l.startswith("END ")]
     stepn = max(1, len(lines) // n_layouts)
     terms = [c for c in (coq_layout_case(l) for l in lines[::stepn][:n_layouts]) if c]
     rc, tout = vlib.sh([drv, "--trace-coq", str(n_hist), "4100", cases_path + ".trace"], timeout=1500)
